@@ -74,6 +74,10 @@ def check(ctx: Ctx, col: Collector, tier: str) -> None:
             used = apps(o.value, "find_return_stmts_recursive") + [x for x in walk_av(o.value) if isinstance(x, App) and x.func.endswith("find_return_stmts_recursive")]
             if descended and not used:
                 probs.append("results of the nested search are discarded")
+            # ... for every searched field: what the search of one block finds is not replaced by what another block holds
+            for f in sorted(descended):
+                if not any(any(mentions(a, f"stmt.{f}") for a in u.args) for u in used):
+                    probs.append(f"the returns found in block field {f!r} do not reach the result" + (f" under {fmt_facts(o.facts)}" if o.facts else ""))
         if probs:
             col.bad("C07.RETURN-FINDER", key, repo.loc(HELPERS, ffi.node), "; ".join(dict.fromkeys(probs)),
                     f"{k}: {list(dict.fromkeys(probs))[0]} - a `return` there is invisible to return-type inference, so the inferred "
